@@ -10,6 +10,7 @@ import (
 	"crypto/tls"
 	"errors"
 	"fmt"
+	"net"
 	"sort"
 	"strings"
 	"time"
@@ -37,6 +38,10 @@ type scenario struct {
 	// BadPublicName: Dialer.PublicName is a 300-byte name (no ECH config can be made from it) and the TLS config has no
 	// config list: Dial must fail up front, without starting or leaving behind anything
 	BadPublicName bool `json:"unencodable_public_name,omitempty"`
+	// RequireECH: Dialer.RequireECH is set and the targets come from ONE resolution result (handed over the way the Transport
+	// does) with one service record per target; the records of "no-ech" targets carry no ech parameter: such a target is
+	// refused without a DialFunc call (a failure like any other), all other targets are attempted as usual
+	RequireECH bool `json:"require_ech,omitempty"`
 }
 
 const unit = time.Second
@@ -66,13 +71,14 @@ type event struct {
 }
 
 type trace struct {
-	events   []event
-	attempts []*attempt
-	ret      *fakeConn
-	retErr   error
-	retAt    time.Duration
-	returned bool
-	cancelAt time.Duration
+	events       []event
+	attempts     []*attempt
+	ret          *fakeConn
+	retErr       error
+	retAt        time.Duration
+	returned     bool
+	cancelAt     time.Duration
+	noECHAttempt bool
 }
 
 func addrOf(i int) string { return fmt.Sprintf("192.0.2.%d:443", i+1) }
@@ -90,12 +96,30 @@ func run(sc scenario, choose vs.Chooser, traceOn bool) (*trace, *vs.Sched) {
 			// a host name whose lookups take D (virtual) seconds each; it resolves to this target's address and then succeeds at once
 			addrs = append(addrs, fmt.Sprintf("slow%d.example:443", i))
 			slow = true
+		case "same-address-as-previous":
+			// another host name that resolves (at once) to the address of the PREVIOUS target (shared hosting): a listed target of
+			// its own, attempted like any other, which then succeeds
+			addrs = append(addrs, fmt.Sprintf("dup%d.example:443", i))
+			slow = true
 		default:
 			addrs = append(addrs, addrOf(i))
 		}
 	}
+	var rr ech.ResolveResult
+	if sc.RequireECH {
+		rr = ech.ResolveResult{Port: 443, Additional: map[string][]net.IP{}}
+		for i, p := range sc.Plans {
+			h := dns.HTTPS{Priority: uint16(i + 1), Target: fmt.Sprintf("t%d.example", i)}
+			if p.Kind != "no-ech" {
+				h.ECH = []byte{0, 4, 0xfe, 0x0d, 0, byte(i)}
+			}
+			rr.HTTPS = append(rr.HTTPS, h)
+			rr.Additional[h.Target] = []net.IP{net.IPv4(192, 0, 2, byte(i+1)).To4()}
+		}
+		addrs = []string{"h.example:443"}
+	}
 	s := vs.RunOpt(choose, 20000, traceOn, func() {
-		d := &ech.Dialer[*fakeConn]{MaxConcurrency: sc.MaxConc, ConcurrencyDelay: time.Duration(sc.Delay) * unit, Timeout: time.Duration(sc.Timeout) * unit}
+		d := &ech.Dialer[*fakeConn]{MaxConcurrency: sc.MaxConc, ConcurrencyDelay: time.Duration(sc.Delay) * unit, Timeout: time.Duration(sc.Timeout) * unit, RequireECH: sc.RequireECH}
 		if sc.BadPublicName {
 			d.PublicName = strings.Repeat("p", 300)
 		}
@@ -114,6 +138,9 @@ func run(sc scenario, choose vs.Chooser, traceOn bool) (*trace, *vs.Sched) {
 					if p.Kind == "slow-resolve" && name == fmt.Sprintf("slow%d.example", i) && t == 1 {
 						return dohmem.Answer{Records: []dnsref.RR{{Name: name, Type: 1, Class: 1, TTL: 60, Fields: []dnsref.Field{{Raw: []byte{192, 0, 2, byte(i + 1)}}}}}}
 					}
+					if p.Kind == "same-address-as-previous" && name == fmt.Sprintf("dup%d.example", i) && t == 1 {
+						return dohmem.Answer{Records: []dnsref.RR{{Name: name, Type: 1, Class: 1, TTL: 60, Fields: []dnsref.Field{{Raw: []byte{192, 0, 2, byte(max(i, 1))}}}}}}
+					}
 				}
 				return dohmem.Answer{}
 			}
@@ -122,11 +149,22 @@ func run(sc scenario, choose vs.Chooser, traceOn bool) (*trace, *vs.Sched) {
 		d.DialFunc = func(ctx context.Context, network, addr string, tc *tls.Config) (*fakeConn, error) {
 			ti := -1
 			for i := range sc.Plans {
-				if addrOf(i) == addr {
+				if addrOf(i) == addr && sc.Plans[i].Kind != "same-address-as-previous" {
 					ti = i
 				}
 			}
+			if tc != nil {
+				// targets that share an address are told apart by the server name the attempt is made for
+				for i, p := range sc.Plans {
+					if p.Kind == "same-address-as-previous" && tc.ServerName == fmt.Sprintf("dup%d.example", i) {
+						ti = i
+					}
+				}
+			}
 			a := &attempt{target: ti, start: vs.Elapsed(), ctxDoneAtEntry: ctx.Err() != nil, ctxDoneAt: -1}
+			if sc.RequireECH && (tc == nil || tc.EncryptedClientHelloConfigList == nil) {
+				tr.noECHAttempt = true
+			}
 			tr.attempts = append(tr.attempts, a)
 			tr.events = append(tr.events, event{"start", a, vs.Elapsed()})
 			defer func() { tr.events = append(tr.events, event{"end", a, vs.Elapsed()}) }()
@@ -165,7 +203,7 @@ func run(sc scenario, choose vs.Chooser, traceOn bool) (*trace, *vs.Sched) {
 				if full = vs.SleepCtx(ctx, time.Duration(p.D)*unit); !full {
 					vs.Sleep(2 * unit)
 				}
-			} else if p.Kind == "slow-resolve" {
+			} else if p.Kind == "slow-resolve" || p.Kind == "same-address-as-previous" {
 				full = ctx.Err() == nil
 			} else {
 				full = vs.SleepCtx(ctx, time.Duration(p.D)*unit)
@@ -176,7 +214,7 @@ func run(sc scenario, choose vs.Chooser, traceOn bool) (*trace, *vs.Sched) {
 				a.result = "cancelled"
 				return nil, ctx.Err()
 			}
-			if p.Kind == "ok" || p.Kind == "ok-slow-to-abort" || p.Kind == "ok-ignoring-deadline" || p.Kind == "slow-resolve" {
+			if p.Kind == "ok" || p.Kind == "ok-slow-to-abort" || p.Kind == "ok-ignoring-deadline" || p.Kind == "slow-resolve" || p.Kind == "same-address-as-previous" {
 				a.result = "ok"
 				a.conn = &fakeConn{id: ti}
 				return a.conn, nil
@@ -196,7 +234,11 @@ func run(sc scenario, choose vs.Chooser, traceOn bool) (*trace, *vs.Sched) {
 				cancel()
 			})
 		}
-		tr.ret, tr.retErr = d.Dial(ctx, "tcp", strings.Join(addrs, ","), nil)
+		dctx := ctx
+		if sc.RequireECH {
+			dctx = ech.VerifContextWithResult(ctx, "h.example", rr)
+		}
+		tr.ret, tr.retErr = d.Dial(dctx, "tcp", strings.Join(addrs, ","), nil)
 		tr.retAt, tr.returned = vs.Elapsed(), true
 		tr.events = append(tr.events, event{"return", nil, vs.Elapsed()})
 	})
@@ -234,6 +276,9 @@ func monitor(sc scenario, tr *trace, s *vs.Sched) (key, what string) {
 		}
 		return "", ""
 	}
+	if tr.noECHAttempt {
+		return "attempt-without-ech", "RequireECH is set and DialFunc was called with a TLS config that has no ECH config list"
+	}
 	delay, timeout := time.Duration(sc.Delay)*unit, time.Duration(sc.Timeout)*unit
 	// 1. order
 	// Start times must be non-decreasing in target order. Attempts released at the same virtual instant (two failures
@@ -256,7 +301,7 @@ func monitor(sc scenario, tr *trace, s *vs.Sched) (key, what string) {
 	var prevStart *event
 	failures, earlyStarts := 0, 0 // every failure reported so far allows one start before the delay has elapsed
 	for _, p := range sc.Plans {
-		if p.Kind == "resolve-error" {
+		if p.Kind == "resolve-error" || p.Kind == "no-ech" {
 			failures++ // a resolution error is reported like a failed attempt (conservatively available from the start)
 		}
 	}
@@ -370,6 +415,9 @@ func monitor(sc scenario, tr *trace, s *vs.Sched) (key, what string) {
 		// failure: legitimate only if cancelled, or nothing could succeed
 		if !cancelledFirst {
 			for i, p := range sc.Plans {
+				if p.Kind == "same-address-as-previous" {
+					return "error-despite-success", fmt.Sprintf("Dial failed with %v although target %d (another name on the previous target's address) accepts", tr.retErr, i)
+				}
 				if p.Kind == "slow-resolve" {
 					return "error-despite-success", fmt.Sprintf("Dial failed with %v although target %d resolves (slowly) and then accepts", tr.retErr, i)
 				}
@@ -427,7 +475,7 @@ func allDoneBefore(tr *trace, at time.Duration) bool { return tr.retAt <= at }
 
 // ---- scenarios and exploration ----
 
-var planDomain = []plan{{"ok", 0}, {"ok", 1}, {"ok", 3}, {"fail", 0}, {"fail", 1}, {"fail", 3}, {"hang", 0}, {"resolve-error", 0}, {"ok-slow-to-abort", 3}, {"reject-then-hang", 1}, {"ok-ignoring-deadline", 3}, {"slow-resolve", 3}}
+var planDomain = []plan{{"ok", 0}, {"ok", 1}, {"ok", 3}, {"fail", 0}, {"fail", 1}, {"fail", 3}, {"hang", 0}, {"resolve-error", 0}, {"ok-slow-to-abort", 3}, {"reject-then-hang", 1}, {"ok-ignoring-deadline", 3}, {"slow-resolve", 3}, {"same-address-as-previous", 0}}
 
 func scenarios(thorough bool) []scenario {
 	var out []scenario
@@ -461,6 +509,31 @@ func scenarios(thorough bool) []scenario {
 							out = append(out, scenario{Plans: plans, MaxConc: mc, Delay: dt[0], Timeout: dt[1], CancelAt: c, BadPublicName: true})
 						}
 					}
+				}
+			}
+		}
+	}
+	// RequireECH: 2..maxT targets from one resolution result, at least one of them without an ech parameter
+	reqDomain := []plan{{"no-ech", 0}, {"ok", 1}, {"fail", 1}, {"hang", 0}}
+	for n := 2; n <= maxT; n++ {
+		total := 1
+		for i := 0; i < n; i++ {
+			total *= len(reqDomain)
+		}
+		for idx := 0; idx < total; idx++ {
+			var plans []plan
+			x, miss := idx, false
+			for i := 0; i < n; i++ {
+				plans = append(plans, reqDomain[x%len(reqDomain)])
+				miss = miss || x%len(reqDomain) == 0
+				x /= len(reqDomain)
+			}
+			if !miss {
+				continue
+			}
+			for mc := 1; mc <= min(n, 3); mc++ {
+				for _, c := range []int{-1, 1} {
+					out = append(out, scenario{Plans: plans, MaxConc: mc, Delay: 2, Timeout: 5, CancelAt: c, RequireECH: true})
 				}
 			}
 		}
